@@ -205,6 +205,39 @@ JudgeC11Filter(g) ==
           \cup (IF same(3, 4) THEN {} ELSE {"C11.or-commutes"})
           \cup (IF same(5, 6) THEN {} ELSE {"C11.table.notnot"})
 
+(* C16: a value and its .string() convert to the same value with the        *)
+(* matching method.  runs[1] = x.m(), runs[2] = x.string().m().             *)
+JudgeC16Str(g) ==
+  LET a == g.runs[1].q  b == g.runs[2].q
+  IN IF Broken(g.runs[1]) \/ Broken(g.runs[2]) THEN {}
+     ELSE IF a.err.cls = b.err.cls /\ a.items = b.items THEN {} ELSE {"C16.string-roundtrip"}
+
+(* C16: .keyvalue() yields one {id, key, value} per member in key order,    *)
+(* ids equal within an object, distinct across objects, stable over         *)
+(* repeated executions.  runs[1], runs[2] = the same query twice on the same *)
+(* document instance; the document is an object or an array of objects.     *)
+KVObjects(doc) == IF doc.t = "obj" THEN <<doc>> ELSE SelectSeq(doc.a, LAMBDA x : x.t = "obj")
+RECURSIVE KVExpect(_, _)
+KVExpect(objs, j) ==     \* the (object index, key, value) sequence expected
+  IF j > Len(objs) THEN <<>>
+  ELSE [m \in 1..Len(objs[j].o) |-> [obj |-> j, key |-> objs[j].o[m].k, value |-> objs[j].o[m].v]] \o KVExpect(objs, j + 1)
+JudgeC16KV(g) ==
+  LET a == g.runs[1].q  b == g.runs[2].q
+      objs == KVObjects(g.runs[1].doc)
+      want == KVExpect(objs, 1)
+      tr(i) == a.items[i]
+      shapeOK == /\ Len(a.items) = Len(want)
+                 /\ \A i \in 1..Len(want) :
+                       /\ IsTriple(tr(i)) /\ tr(i).o[2].v = VStr(want[i].key) /\ tr(i).o[3].v = want[i].value
+                       /\ tr(i).o[1].v.t = "num"
+      idOf(i) == tr(i).o[1].v
+      idsOK == \A i, k \in 1..Len(want) : (idOf(i) = idOf(k)) <=> (want[i].obj = want[k].obj)
+  IN IF Broken(g.runs[1]) \/ Broken(g.runs[2]) THEN {}
+     ELSE IF a.err.cls # "none" THEN {"C16.keyvalue-error"}
+     ELSE (IF shapeOK THEN {} ELSE {"C16.keyvalue-triples"})
+          \cup (IF shapeOK /\ ~idsOK THEN {"C16.keyvalue-ids"} ELSE {})
+          \cup (IF a = b THEN {} ELSE {"C16.keyvalue-unstable"})
+
 JudgeGroup(g) ==
   CASE g.kind = "C10"      -> Loosen(g, JudgeC10(g), "C10")
     [] g.kind = "C10conj"  -> Loosen(g, JudgeC10Conj(g), "C10")
@@ -213,4 +246,6 @@ JudgeGroup(g) ==
     [] g.kind = "C11"      -> JudgeC11(g)
     [] g.kind = "C11exists" -> JudgeC11Exists(g)
     [] g.kind = "C11filter" -> Loosen(g, JudgeC11Filter(g), "C11")
+    [] g.kind = "C16str" -> JudgeC16Str(g)
+    [] g.kind = "C16kv" -> JudgeC16KV(g)
 =============================================================================
